@@ -175,6 +175,16 @@ func decoderScope(c *core.Ctx, prefix string, roots []*core.Fn, inScope func(*co
 					linWhy[o.Node] = why
 				}
 				c.Fail(prefix+"no-panic", construct, o.Node.Pos(), "index/slice operation on input-derived data without a dominating bound (constant index into a fixed-size value, loop index bounded by the length, tested length) and the linear bounds analysis does not prove it either ("+linWhy[o.Node]+"): out-of-range input panics, and the daemon has no recover")
+			case "shift":
+				if ok, why, as := p.LinearDischarge(f, o.Node); ok {
+					if len(as) > 0 {
+						why += "; assuming: " + strings.Join(as, "; ")
+					}
+					c.Hold(prefix+"no-panic", construct, o.Node.Pos(), why)
+					continue
+				} else {
+					c.Fail(prefix+"no-panic", construct, o.Node.Pos(), "shift by a signed count that is not shown to be non-negative ("+why+"): a negative count panics (e.g. `32 - int(len)` for a length above 32 that an earlier conversion let through)")
+				}
 			case "type-assert":
 				ta := o.Node.(*ast.TypeAssertExpr)
 				if vs, ok := core.Unparen(ta.X).(*ast.SelectorExpr); ok {
